@@ -75,7 +75,10 @@ func init() {
 var c19Pool = []string{"a", "b", "c", "d.e", "d.f", "g.h.i", "l[0]", "l[1]", "k1"}
 var c19Unknown = []string{"nope", "u1", "zz.q"}
 
-func c19Value(r *rand.Rand, idx int) W {
+func c19Value(r *rand.Rand, idx int) W { return c19ClassicGen().value(r, idx) }
+
+func (g *c19Gen) value(r *rand.Rand, idx int) W {
+	c19Pool, c19Unknown := g.pool, g.unknown
 	later := c19Pool[idx+1:]
 	if len(later) == 0 || r.Intn(20) < 7 {
 		switch r.Intn(8) {
@@ -88,10 +91,10 @@ func c19Value(r *rand.Rand, idx int) W {
 		case 3:
 			return scalarWire(pick(r, c19Pool)) // a key name as plain text (target of nested keys)
 		default:
-			return scalarWire(pick(r, []string{"x", "v1", "a b", "", "1"}))
+			return scalarWire(pick(r, g.plain))
 		}
 	}
-	text := func() string { return pick(r, []string{"x", "-", "v1", " ", "_"}) }
+	text := func() string { return pick(r, g.texts) }
 	ph := func() string {
 		switch r.Intn(12) {
 		case 0, 1, 2, 3:
@@ -134,14 +137,19 @@ func c19Value(r *rand.Rand, idx int) W {
 }
 
 func c19GenDoc(r *rand.Rand, names []string, maxLayers int) c19Doc {
-	n := 1 + r.Intn(maxLayers)
+	return c19ClassicGen().doc(r, names, maxLayers)
+}
+
+func (g *c19Gen) doc(r *rand.Rand, names []string, maxLayers int) c19Doc {
+	c19Pool := g.pool
+	n := 1 + r.Intn(min(maxLayers, len(names)))
 	var d c19Doc
 	for i := 0; i < n; i++ {
 		l := c19Layer{Name: names[i], Puts: []c19Put{}}
 		indexFree := true
 		for idx, k := range c19Pool {
 			if r.Intn(2) == 0 {
-				l.Puts = append(l.Puts, c19Put{Path: k, V: c19Value(r, idx)})
+				l.Puts = append(l.Puts, c19Put{Path: k, V: g.value(r, idx)})
 				if strings.Contains(k, "[") {
 					indexFree = false
 				}
@@ -155,9 +163,21 @@ func c19GenDoc(r *rand.Rand, names []string, maxLayers int) c19Doc {
 	return d
 }
 
-func c19GenFilter(r *rand.Rand) c19Filter {
+func c19GenFilter(r *rand.Rand) c19Filter { return c19ClassicGen().filter(r) }
+
+func (g *c19Gen) filter(r *rand.Rand) c19Filter {
+	c19Pool := g.pool
 	switch r.Intn(5) {
 	case 0:
+		if g.wide {
+			// a prefix of a pool key (cut at a character boundary), sometimes in another letter case
+			k := []rune(pick(r, c19Pool))
+			p := string(k[:r.Intn(len(k)+1)])
+			if r.Intn(4) == 0 {
+				p = strings.ToUpper(p)
+			}
+			return c19Filter{Kind: "prefix", Arg: p}
+		}
 		return c19Filter{Kind: "prefix", Arg: pick(r, []string{"d", "d.", "l", "k"})}
 	case 1:
 		return c19Filter{Kind: "not", Arg: pick(r, c19Pool)}
@@ -169,8 +189,10 @@ func c19GenFilter(r *rand.Rand) c19Filter {
 	return c19Filter{Kind: "all"}
 }
 
-func c19GenSibling(r *rand.Rand) c19Sibling {
-	sb := c19Sibling{Filter: c19GenFilter(r), When: "before", Use: r.Intn(4) > 0}
+func c19GenSibling(r *rand.Rand) c19Sibling { return c19ClassicGen().sibling(r) }
+
+func (g *c19Gen) sibling(r *rand.Rand) c19Sibling {
+	sb := c19Sibling{Filter: g.filter(r), When: "before", Use: r.Intn(4) > 0}
 	if r.Intn(5) < 2 {
 		sb.Matcher = pick(r, []string{"never", "always", "dollar"})
 	}
@@ -187,24 +209,29 @@ func c19Run(c *Ctx) {
 	r := c.Rng
 	for i := 0; i < c.N(2000); i++ {
 		c.Tick()
-		cs := c19Case{Docs: []c19Doc{c19GenDoc(r, []string{"base", "env", "local"}, 3)}}
-		for j := r.Intn(3); j > 0; j-- {
-			names := []string{"r1", "r2"}
-			if r.Intn(4) == 0 {
-				names = []string{"base", "r2"} // a reference layer named like a source layer
-			}
-			cs.Docs = append(cs.Docs, c19GenDoc(r, names, 2))
+		// the pools of this case: the classic ones, or (half of the cases) confusable spellings (c19_wide.go)
+		g := c19ClassicGen()
+		if r.Intn(2) == 0 {
+			g = c19WideGen(r)
 		}
-		switch r.Intn(8) {
-		case 0:
-			cs.Filter = c19Filter{Kind: "prefix", Arg: pick(r, []string{"d", "d.", "l", "k"})}
-		case 1:
-			cs.Filter = c19Filter{Kind: "not", Arg: pick(r, c19Pool)}
-		case 2:
-			cs.Filter = c19Filter{Kind: "in", Arg: pick(r, c19Pool) + "," + pick(r, c19Pool) + "," + pick(r, c19Pool)}
-		case 3:
-			cs.Filter = c19Filter{Kind: "none"}
-		default:
+		srcNames, refNames := []string{"base", "env", "local"}, []string{"r1", "r2"}
+		if g.wide {
+			srcNames = c19LayerNames(r, srcNames)
+		}
+		cs := c19Case{Docs: []c19Doc{g.doc(r, srcNames, 3)}}
+		for j := r.Intn(3); j > 0; j-- {
+			names := refNames
+			if r.Intn(4) == 0 {
+				names = []string{srcNames[0], "r2"} // a reference layer named like a source layer
+			}
+			cs.Docs = append(cs.Docs, g.doc(r, names, 2))
+		}
+		if r.Intn(8) < 4 {
+			cs.Filter = g.filter(r)
+			for cs.Filter.Kind == "all" {
+				cs.Filter = g.filter(r)
+			}
+		} else {
 			cs.Filter = c19Filter{Kind: "all"}
 		}
 		if cs.Filter.Kind == "all" && r.Intn(2) == 0 {
@@ -212,15 +239,15 @@ func c19Run(c *Ctx) {
 		}
 		if r.Intn(2) == 0 {
 			for j := 1 + r.Intn(2); j > 0; j-- {
-				cs.Siblings = append(cs.Siblings, c19GenSibling(r))
+				cs.Siblings = append(cs.Siblings, g.sibling(r))
 			}
 		}
 		cs.Keys = []string{}
 		for j := r.Intn(7); j > 0; j-- {
 			if r.Intn(5) == 0 {
-				cs.Keys = append(cs.Keys, pick(r, c19Unknown))
+				cs.Keys = append(cs.Keys, pick(r, g.unknown))
 			} else {
-				cs.Keys = append(cs.Keys, pick(r, c19Pool))
+				cs.Keys = append(cs.Keys, pick(r, g.pool))
 			}
 		}
 		c.Do("reports", cs)
@@ -614,6 +641,9 @@ func c19Eval(c *Ctx, kind string, raw []byte) {
 	orphans := dep["orphans"].([]any)
 	dmap := dep["map"].(map[string]any)
 	mkeys := sortedKeys(merged)
+	for _, sh := range c19KeyShape(mkeys) {
+		c.Dist("keys:" + sh)
+	}
 	// AllKeys == sorted(Flatten(Merged) keys passing the filter)   [dependency resolver: matchAll]
 	c.Direct("AllKeys == sorted(Flatten(Merged) keys)", canon(all) == canon(c19Strs(mkeys)), map[string]any{"AllKeys": all, "expected": mkeys})
 	// OrphanKeys == sorted(AllKeys \ mentioned);  Map[k] == multiset of (layer, path) whose value mentions k
